@@ -387,7 +387,19 @@ func livenessHealRealServer(w *World) {
 			}
 		}
 		logins := func() int { w.mu.Lock(); defer w.mu.Unlock(); return w.res.Probes["frps.login"] }
-		switch k := r.Intn(7); k {
+		switch k := r.Intn(8); k {
+		case 7: // for a while the server accepts the client's connections and then says nothing on them (frozen process,
+			// a middlebox that drops everything after the TCP handshake): the client must not get stuck on such a connection
+			w.Probe("liveness.silent_accepts")
+			w.Net.ConnHook = func(ev string, c *simnet.Conn) {
+				if ev == "established" && strings.HasPrefix(c.Link(), "frpc1>10.0.0.1:7000") {
+					c.MuteLocked()
+				}
+			}
+			resetAll()
+			d := []time.Duration{5 * time.Second, 40 * time.Second, 5 * time.Minute}[r.Intn(3)]
+			time.Sleep(d + time.Duration(r.Intn(3000))*time.Millisecond)
+			w.Net.ConnHook = nil
 		case 0: // reset every connection of the client
 			resetAll()
 		case 6: // half-open: the client's connections are cut so that only the client notices (state lost in a
